@@ -470,6 +470,14 @@ func stackClasses(frames []string) []string {
 		{"absolute", "layout.absoluteLayout"}, {"margin-boxes", "layout.makeMarginBoxes"},
 		{"drawing", "document.drawContext"}, {"drawing", "document.(*Document).Write"},
 		{"box-building", "boxes.BuildFormattingStructure"}, {"cascade", "tree.GetAllComputedStyles"}, {"parsing", "tree.NewHTML"},
+		// output proportional to the geometry (known out-of-memory findings)
+		{"leader", "layout.handleLeader"}, {"border-drawing", "document.clipBorderSegment"}, {"border-drawing", "drawContext.drawBorder"},
+		{"decoration-drawing", "drawTextDecoration"},
+		// name-following code
+		{"counter-style", "css/counters."}, {"counter-style-extends", "CounterStyle.extendsChain"}, {"svg", " svg."}, {"images", " images."},
+		{"var-resolution", "tree.resolveVar"}, {"stylesheet-import", "tree.preprocessStylesheet"}, {"target-collector", "TargetCollector"},
+		// the pagination proper (layout.Layout is on the stack during the cascade and box building as well)
+		{"page-layout", "layoutContext).makePage"}, {"page-layout", "layout.makeMarginBoxes"},
 	}
 	set := map[string]bool{}
 	for _, f := range frames {
